@@ -3,7 +3,8 @@ HANDLER = "C10"
 RULE = ("generated bit-vector transition systems with at most 2^10 state valuations and at most 3 input bits, fifteen families "
         "(counters with enable/wrap/saturation/flags, shift registers with an input constraint, lock-step register pairs, one-hot rings, "
         "arithmetic progressions x' = x + c on 3..5 bits (c constant or chosen among 2/4 constants by an input; arbitrary reset and bad values: "
-        "the family that drives fix_gen_cube's restore loop with several literals, histograms `trace_restore_loop`, `restore_core_2+_by_family`), "
+        "the family that drives fix_gen_cube's restore loop with several literals, histograms `trace_restore_loop`, `restore_core_2+_by_family`; "
+        "it also has a stream of its own, `restore`, with generalisation on only), "
         "explicit FSM tables, random next-state logic, states without init / without next / constant, init reading an earlier state, "
         "init reading an input (unsafe ones and SAFE ones whose state projection is spuriously unsafe), bad states that are dead ends under a "
         "state constraint, relational init (a state whose init reads a state without init), bad-state expressions reading an input that the "
@@ -52,11 +53,15 @@ PROFILES = ["debug"]
 def streams(tier, seed):
     if tier == "quick":
         # z3 seed 4 = smt.core.minimize, cvc5 seed 2 = --minimal-unsat-cores: small cores make the init re-fixing matter
-        return [dict(tag="main", count=40, seed=seed, extra={"runs": "z3:0,4;cvc5:0,2;pushpop:0", "jobs": 8, "full-bits": 4, "cvc5-bits": 4, "small-share": 75, "faults": 1})]
+        return [dict(tag="main", count=40, seed=seed, extra={"runs": "z3:0,4;cvc5:0,2;pushpop:0", "jobs": 8, "full-bits": 4, "cvc5-bits": 4, "small-share": 75, "faults": 1}),
+                # the restore loop of fix_gen_cube with cores of several literals (seeded change C10-m4): generalisation on only
+                dict(tag="restore", count=60, seed=seed, extra={"family": "arith", "runs": "z3+:0,1,4", "jobs": 8, "full-bits": 5})]
     out = []
     for k in range(3):
         out.append(dict(tag="main%d" % k, count=50, seed=seed * 1000 + k,
                         extra={"runs": "z3:0,1,2,3,4;cvc5:0,1,2;pushpop:0,1", "jobs": 10, "full-bits": 4, "cvc5-bits": 4, "small-share": 70, "faults": 3}))
+        out.append(dict(tag="restore%d" % k, count=100, seed=seed * 1000 + 500 + k,
+                        extra={"family": "arith", "runs": "z3+:0,1,2,3,4;cvc5+:0,1", "jobs": 10, "full-bits": 5, "cvc5-bits": 5}))
     return out
 
 
